@@ -30,7 +30,7 @@ ASSUME_COMMON = [
 
 
 def cost_conf(fam):
-    w = {"Blowfish": 700, "Kuznyechik": 8, "Serpent": 6, "Threefish": 6, "Gift": 6}.get(fam, 1)
+    w = {"Blowfish": 40, "Kuznyechik": 8, "Serpent": 6, "Threefish": 6, "Gift": 6}.get(fam, 1)
 
     def cost(run):
         return sum(w * 3 if e.get("ev") in ("new",) or (e.get("ev") == "bc" and e.get("fn") in ("expand", "salted")) else
@@ -62,9 +62,7 @@ def conformance(pid, tier, seed):
             cfgs = SERPENT_CFGS
         # per-family effort (TLC cost per key schedule differs by orders of magnitude)
         if fam == "Blowfish":
-            kw = dict(keys=1, blocks=2, lens="all" if thorough else "few")
-            if thorough:
-                kw["keys"] = 2
+            kw = dict(keys=6 if thorough else 2, blocks=3 if thorough else 2, lens="all")
         elif fam in ("Serpent", "Kuznyechik", "Threefish", "Gift"):
             kw = dict(keys=6 if thorough else 3, blocks=4 if thorough else 2, lens="all" if thorough else "few")
         elif fam == "RC2":
@@ -98,10 +96,10 @@ def c14(tier, seed):
     # spec -> impl: TLC enumerates all call sequences of the eksblowfish sub-machine up to the bound
     r = c.model_check("Eks_MC.tla", "Eks_MC.cfg", "Eks_MC", workers=4, timeout=600, must_cover=("Expand", "Salted", "Encrypt"))
     scen_path = os.path.join(c.work, "eks-scenarios.ndjson")
-    n = scen.extract(r.out, scen_path, limit=(40 if thorough else 8), seed=seed)
+    n = scen.extract(r.out, scen_path, limit=(400 if thorough else 60), seed=seed)
     evs = c.drive("default", "bcrypt", scenarios=scen_path)
-    evs += renumber(c.drive("default", "bcrypt", n=2 if not thorough else 8, steps=2 if not thorough else 4,
-                            cost=0 if not thorough else 2), 10_000_000)
+    evs += renumber(c.drive("default", "bcrypt", n=6 if not thorough else 30, steps=4 if not thorough else 6,
+                            cost=1 if not thorough else 3), 10_000_000)
     c.notes["tlc_generated_scenarios"] = n
     c.validate(evs, mod, cfg, "eks", what="eksblowfish state machine", cost=cost_conf("Blowfish"), shards=14)
     rule = ("call sequences over {expand(k1|k2), salted(s1|s2,k1|k2), encrypt}: all sequences up to the bound enumerated by TLC "
@@ -133,11 +131,12 @@ def c18(tier, seed):
     c.kat("Belt")
     mod, cfg = conf_mod("Belt")
     thorough = tier == T
-    evs = c.drive("default", "wblock", maxlen=160 if thorough else 72, extra=8 if thorough else 2, keys=3 if thorough else 1)
-    c.validate(evs, mod, cfg, "wblock-l2", what="belt-wblock conformance")
+    evs = c.drive("default", "wblock", maxlen=160 if thorough else 72, extra=8 if thorough else 2, keys=3 if thorough else 1,
+                  big=3 if thorough else 1)
+    c.validate(evs, mod, cfg, "wblock-l2", what="belt-wblock conformance", cost=lambda run: sum(len(e.get("in", [])) ** 2 // 256 + 1 for e in run))
     # L1 view of the same trace: both compositions are inverse, rejection leaves the buffer untouched
     evs2 = c.drive("default", "wblock", maxlen=160 if thorough else 100, extra=20 if thorough else 4, keys=4 if thorough else 2,
-                   seed=seed + 1)
+                   seed=seed + 1, big=12 if thorough else 3)
     c.validate(evs2, API_MOD, API_CFG, "wblock-l1", what="belt-wblock inverse / rejection")
     c.exhaustive = False
     rule = ("wblock events for every length 0..maxlen (all lengths < 32: rejection with buffer unchanged; all lengths >= 32 up to the "
@@ -166,7 +165,8 @@ def c01(tier, seed):
         kw.update(extra)
         evs += renumber(c.drive(cfg_id, "roundtrip", **kw), i * 10_000_000)
     c.validate(evs, API_MOD, API_CFG, "rt", what="round trip")
-    wb = c.drive("default", "wblock", minlen=32, maxlen=96 if not thorough else 200, extra=4 if not thorough else 30, keys=2)
+    wb = c.drive("default", "wblock", minlen=32, maxlen=96 if not thorough else 200, extra=4 if not thorough else 30, keys=2,
+                 big=3 if not thorough else 12)
     c.validate(wb, API_MOD, API_CFG, "rt-wblock", what="wblock round trip")
     rule = ("per key: enc(b)->c, dec(c), dec(b)->p, enc(p) through single-block and multi-block entry points, Enc/Dec halves joined "
             "through From, Threefish tweak/u64 constructors, wblock both compositions; accepted iff consistent with one learned "
@@ -263,7 +263,19 @@ def c12(tier, seed):
         kw.update(extra)
         walks += renumber(c.drive(cfg_id, "api", **kw), (i + 10) * 10_000_000)
     c.validate(walks, API_MOD, API_CFG, "walk", what="random history with clones/conversions")
-    rule = ("all chains of {new(enc|dec|both), From<Enc>, From<&Enc>, clone, clone of converted, drop of source, enc/dec} within the "
+    # systematic clone / conversion sweep: every type x accepted key length (x extra-argument constructors)
+    sweep = []
+    for i, (cfg_id, extra, fam) in enumerate([("default", {}, None), ("aes-detect-off", {"force_off": 1}, "AES"),
+                                              ("aes-soft", {}, "AES"), ("aes-soft-compact", {}, "AES"),
+                                              ("kuz-soft", {}, "Kuznyechik"), ("kuz-compact", {}, "Kuznyechik")]):
+        kw = dict(keys=4 if thorough else 2, lens="all" if (thorough or not fam is None) else "all")
+        if fam:
+            kw["family"] = fam
+        kw.update(extra)
+        sweep += renumber(c.drive(cfg_id, "clones", **kw), (i + 20) * 10_000_000)
+    c.validate(sweep, API_MOD, API_CFG, "clones", what="clone/conversion sweep")
+    rule = ("clone sweep: every Clone type x EVERY accepted key length x {instance, clone, clone of clone, From<&Enc>, From<Enc>, "
+            "clone of converted}, observed before and after the source is dropped; all chains of {new(enc|dec|both), From<Enc>, From<&Enc>, clone, clone of converted, drop of source, enc/dec} within the "
             "bound are enumerated by TLC on MC_API; one scenario per transition (shortest path + edge) is replayed for the AES sizes "
             "and Kuznyechik on every backend incl. both union arms; after every step every live instance is observed and must agree "
             "with its key class, and with a fresh instance at the end; seeded random walks cover Clone for every Clone type")
@@ -362,7 +374,8 @@ def c20(tier, seed):
     c.validate(merge_by_run(traces), API_MOD, API_CFG, "tot-batch", what="dev vs release, batches")
     traces = []
     for cfg_id in ("default", "release"):
-        traces.append((cfg_id, c.drive(cfg_id, "wblock", may_die=True, minlen=32, maxlen=80 if not thorough else 200, extra=3, keys=2)))
+        traces.append((cfg_id, c.drive(cfg_id, "wblock", may_die=True, minlen=32, maxlen=80 if not thorough else 200, extra=3, keys=2,
+                                       big=2 if not thorough else 6)))
     c.validate(merge_by_run(traces), API_MOD, API_CFG, "tot-wblock", what="dev vs release, wblock")
     for fam, cfgs in (("AES", ["aes-soft", "aes-soft-compact"]), ("Kuznyechik", ["kuz-soft", "kuz-compact"]), ("Serpent", ["serpent-loop"])):
         for cfg_id in cfgs:
